@@ -194,6 +194,26 @@ def wrapper_part(rep, tier, rng, bad):
         if ms1 and SY.out != S.out:
             bad.append(("yaml-fence-changes-body", "the same block inside --- fences gives a different body", case)); continue
         nyaml += 1
+    # every documented control key on its own (and all of them together), in every format: such a document has no metadata
+    # "beyond the rendering-control keys", so without a switch it is the snippet
+    CV = {"Base Header Level": "2", "HTML Header Level": "3", "LaTeX Header Level": "2", "ODF Header Level": "2", "EPUB Header Level": "2", "XHTML Header Level": "2",
+          "Language": "de", "Quotes Language": "french", "LaTeX Mode": "memoir"}
+    blocks = [[(k, rng.choice([CV[k], CV[k], "beamer" if k == "LaTeX Mode" else CV[k]]))] for k in CONTROL] + [[(k, CV[k]) for k in CONTROL]]
+    cbody = b"# Head\n\nSome \"text\" here.\n"
+    cjobs = [(meta_text(ms) + cbody, fmt, BASE | (E[sw] if sw else 0), 0) for ms in blocks for fmt in FORMATS for sw in ("", "snippet")]
+    cres = tchk.convert(cjobs)
+    nctl = 0
+    it = iter(cres)
+    for ms in blocks:
+        for fmt in FORMATS:
+            D, S = next(it), next(it)
+            case = dict(doc=(meta_text(ms) + cbody).decode(), format=fmt, ext=BASE, meta=ms)
+            if not (D.ok() and S.ok()):
+                bad.append(("impl-crash", "conversion failed", case)); continue
+            if D.out != S.out:
+                bad.append(("default-not-as-decided", "metadata consisting of the control key(s) %s only: the default %s output is not the snippet rendering" % ([k for k, _ in ms], fmt), case)); continue
+            nctl += 1
+    rep.cov["control_keys_alone_give_snippet"] = nctl
     rep.cov["body_format_pairs"] = len(by)
     rep.cov["snippet_inside_complete"] = nin
     rep.cov["default_as_decided"] = ndef
